@@ -18,7 +18,24 @@ EXTRA = ["Z", "0", "\r", "\x0b", "\x0c", " ", " ", "　", "\x1f", "𝔘", "%"
 def run_strings(strs):
     from curies.w3c import is_w3c_curie, is_w3c_prefix
 
-    return [[bool(is_w3c_prefix(s)), bool(is_w3c_curie(s))] for s in strs]
+    from curies import Prefix
+
+    class UserStr(str):
+        """a caller's own str subclass"""
+
+    out = []
+    for s in strs:
+        a, b = bool(is_w3c_prefix(s)), bool(is_w3c_curie(s))
+        # the verdict is about the characters, not about the class of the string object: the same text as a
+        # curies.Prefix (what Reference.prefix holds) and as a user's str subclass must be judged alike; a deviating
+        # verdict replaces the plain one, so that it shows against the model
+        for cls in (Prefix, UserStr):
+            a2, b2 = bool(is_w3c_prefix(cls(s))), bool(is_w3c_curie(cls(s)))
+            if (a2, b2) != (a, b):
+                a, b = a2, b2
+                break
+        out.append([a, b])
+    return out
 
 
 def spaces_of(strs):
@@ -69,7 +86,8 @@ class C20:
             "digits, CR, VT, FF, NBSP, U+2028, U+3000, U+001F, non-BMP, '%', '?', '\\\\', titlecase and non-ASCII "
             "digits); is_w3c_prefix and is_w3c_curie are compared with the Lean model and with the grammar of the "
             "property (Spec.W3C). One generated case = a batch of 400 strings. Non-trivial = the batch contains "
-            "accepted and rejected strings for both validators.")
+            "accepted and rejected strings for both validators. Every string is judged three times: as str, as curies.Prefix "
+            "and as a user str subclass; a deviating verdict replaces the plain one.")
     assumptions = ["Python's re \\\\s and str.strip whitespace = str.isspace (shipped per case as the model's `space` parameter)"]
     trusted_base = STD_TRUSTED[:3] + ["CPython re (the two patterns are modelled by hand, alternative by alternative)"]
 
